@@ -9,13 +9,13 @@ package stdlib
 
 //@ func (*context).pushBusy(ctx) (err)
 //@   requires cntok: cnt(ctx) >= 0
-//@   modifies wgcnt[addr(ctx.running)]
+//@   modifies wgcnt[addr(ctx.running)], ctx.running
 //@   ensures adm: err == nil ==> cnt(ctx) == old(cnt(ctx)) + 1 && !ctx.closed
 //@   ensures rej: err != nil ==> cnt(ctx) == old(cnt(ctx)) && ctx.closed
 
 //@ func (*context).popBusy(ctx)
 //@   requires pos: cnt(ctx) > 0
-//@   modifies wgcnt[addr(ctx.running)]
+//@   modifies wgcnt[addr(ctx.running)], ctx.running
 //@   ensures dec: cnt(ctx) == old(cnt(ctx)) - 1
 
 //@ func (*context).RunCode(ctx, code, globals, locals, closure) (r, err)
